@@ -1531,6 +1531,10 @@ impl<'p> Machine<'p> {
                     }
                 }
             }
+            Op::SelfWake => {
+                // no effect on anything else: the future's own wake-up makes the wait return
+                let _ = self.push_ev(t, pc, EK::Sync, NOLOC, MO::Rlx);
+            }
             Op::AwWake if self.th[t].sub == 1 => {
                 // the tail of wake(): dropping the waker (no effect in the model)
             }
